@@ -119,6 +119,10 @@ def _work(arg):
         if att0.get("main.c", {}).get(4) != frozenset({"p1"}):
             out.append(Failure("outside-macros-lost", {"variant": variant}, expected="line 4 of main.c (guarded by FEATURE from the outside header) used by p1", observed=str(att0.get("main.c"))))
     skipped = 0
+    # one analysis serves any exclusion list: the state of the unexcluded run, asked for the counts of narrower code bases
+    from codebasin import CodeBase, finder
+    cfg0 = codebase.configuration(root, plats)
+    st0 = finder.find(root, CodeBase(root), cfg0)
     for S in subsets:
         for rname, pats in renderings(files, S):
             if git_matches(base, files, pats) != set(S):
@@ -138,6 +142,14 @@ def _work(arg):
                      if exp_att.get(rel, {}).get(ln) != att1.get(rel, {}).get(ln)]
                 out.append(Failure("attribution-changed", w, expected="remaining files keep their per-line attribution; excluded files vanish", observed=d[:8]))
             exp_sm = smap(exp_att)
+            try:
+                sm_same_state = dict(st0.get_setmap(CodeBase(root, exclude_patterns=list(pats))))
+            except Exception as e:  # noqa
+                sm_same_state = {"EXC": str(e)}
+            if {k: v for k, v in sm_same_state.items() if v} != {k: v for k, v in exp_sm.items() if v}:
+                out.append(Failure("setmap-same-state", w, expected=sorted(([sorted(k), v] for k, v in exp_sm.items()), key=str),
+                                   observed=sorted(([sorted(k) if not isinstance(k, str) else k, v] for k, v in sm_same_state.items()), key=str),
+                                   note="get_setmap of the state of the unexcluded analysis, asked with this exclusion list after other lists"))
             if {k: v for k, v in sm1.items() if v} != {k: v for k, v in exp_sm.items() if v}:
                 out.append(Failure("setmap", w, expected=sorted(([sorted(k), v] for k, v in exp_sm.items()), key=str), observed=sorted(([sorted(k), v] for k, v in sm1.items()), key=str)))
             if with_cli and rname in ("anchored", "ext+negation", "directory"):
@@ -159,6 +171,15 @@ def cli_equiv(root, plats, pats):
     b = cli.run("codebasin", ["-R", "summary", "excl.toml"], root)
     if a["rc"] != 0 or b["rc"] != 0 or _body(a["out"]) != _body(b["out"]):
         bad.append(("codebasin", _body(b["out"])[-400:], _body(a["out"])[-400:] + str(a["rc"])))
+    # -x together with a list in the analysis file: the lists add up (also when the file's list is empty)
+    codebase.write_analysis(root, plats, exclude=[], name="empty.toml")
+    codebase.write_analysis(root, plats, exclude=pats[1:], name="rest.toml")
+    for tag, argv in (("-x with an empty file list", xs + ["-R", "summary", "empty.toml"]), ("-x for the first pattern, the rest in the file", ["-x", pats[0], "-R", "summary", "rest.toml"] if pats else None)):
+        if argv is None:
+            continue
+        c = cli.run("codebasin", argv, root)
+        if c["rc"] != 0 or _body(c["out"]) != _body(b["out"]):
+            bad.append(("codebasin: " + tag, _body(b["out"])[-400:], _body(c["out"])[-400:] + str(c["rc"])))
     a = cli.run("tree", xs + ["plain.toml"], root)
     b = cli.run("tree", ["excl.toml"], root)
     if a["rc"] != 0 or b["rc"] != 0 or a["out"] != b["out"]:
